@@ -40,6 +40,9 @@ type Frame struct {
 	// to the current stack top.
 	// Stacktop *Object
 	Yielded bool // set if the function yielded, cleared otherwise
+	// Exception to raise at the point of suspension when a generator
+	// frame is resumed (generator.throw/close); RunFrame consumes it
+	Throw *Exception
 	// Trace   Object // Trace function
 
 	// In a generator, we need to be able to swap between the exception
